@@ -485,3 +485,78 @@ def field_owner_name(cls, f):
 
 FSHOCK_SETUP = shock_setup_spec("FundamentalPriceShock.setup", [("priceChangeRate", "price_change_rate", "any")], [("shockTimeLength", "shock_time_length")], False)
 MISTAKE_SETUP = shock_setup_spec("OrderMistakeShock.setup", [("priceChangeRate", "price_change_rate", "float"), ("orderVolume", "order_volume", "int"), ("orderTimeLength", "order_time_length", "int")], [], True)
+
+
+# ----------------------------------------------------------------------------- set-up of the two rules: the target markets are exactly the configured names (C15, C16)
+def rule_setup_spec(qual, extra_int, prop):
+    cls = qual.split(".")[0]
+
+    def names(st, a):
+        s = a["settings"]
+        v = _sget(st, s, "targetMarkets"); lst = dyn_ref(v)
+        return v, lst, st.length(lst, ("dyn",)), (lambda j: z3.Select(st.elems(lst, ("dyn",)), j))
+
+    def pre(st, a):
+        s = a["settings"]
+        return [("`enabled`, if given, is a boolean", z3.Implies(_shas(st, s, "enabled"), dyn_is_bool(_sget(st, s, "enabled")))),
+                ("a JSON value has one shape", z3.Implies(_shas(st, s, "targetMarkets"), z3.Implies(dyn_is_list(_sget(st, s, "targetMarkets")), names(st, a)[2] >= 0))),
+                ("the rule's own target map is not the simulator's market registry", st.read(a["self"], "target_markets").term != st.read(st.read(a["self"], "simulator"), "name2market").term)]
+
+    def invalid(st, a):
+        s = a["settings"]; ev = a["self"]
+        n2m = st.read(st.read(ev, "simulator"), "name2market")
+        v, lst, n, el = names(st, a); j = z3.Int("j_rsi")
+        isint = lambda x: z3.Or(dyn_is_int(x), dyn_is_bool(x))
+        bad = [z3.Not(_shas(st, s, "targetMarkets")), z3.Not(dyn_is_list(v)),
+               z3.Exists([j], z3.And(0 <= j, j < n, z3.Or(z3.Not(dyn_is_str(el(j))), z3.Not(z3.Select(st.dict_dom(n2m), dyn_str(el(j))))))),
+               z3.Not(_shas(st, s, "triggerChangeRate")), z3.Not(dyn_is_real(_sget(st, s, "triggerChangeRate")))]
+        for key, fld in extra_int:
+            bad += [z3.Not(_shas(st, s, key)), z3.Not(isint(_sget(st, s, key)))]
+        return z3.Or(*bad)
+
+    def post(st0, st1, a, res):
+        s = a["settings"]; ev = a["self"]
+        n2m = st0.read(st0.read(ev, "simulator"), "name2market")
+        v, lst, n, el = names(st0, a); j = z3.Int("j_rsp"); k = z3.Const("k_rsp", z3.StringSort())
+        tm0, tm1 = st0.read(ev, "target_markets"), st1.read(ev, "target_markets")
+        out = [(f"{prop} the target markets are the previous ones plus exactly the configured names, each mapped to the market registered under that name",
+                z3.And(tm1.term == tm0.term,
+                       z3.ForAll([k], z3.Select(st1.dict_dom(tm1), k) == z3.Or(z3.Select(st0.dict_dom(tm0), k), z3.Exists([j], z3.And(0 <= j, j < n, dyn_str(el(j)) == k)))),
+                       z3.ForAll([j], z3.Implies(z3.And(0 <= j, j < n), z3.Select(st1.dict_val(tm1), dyn_str(el(j))) == z3.Select(st0.dict_val(n2m), dyn_str(el(j))))))),
+               (f"{prop} the trigger rate is the configured one", to_real(st1.read(ev, "trigger_change_rate")) == coerce(V(("dyn",), _sget(st0, s, "triggerChangeRate")), ("real",))),
+               ("`enabled` is taken from the configuration when given, else left as it was",
+                st1.read(ev, "is_enabled").term == z3.If(_shas(st0, s, "enabled"), dyn_bool(_sget(st0, s, "enabled")), st0.read(ev, "is_enabled").term))]
+        for key, fld in extra_int:
+            out.append((f"{prop} {fld} is the configured {key}", st1.read(ev, fld).term == dyn_int(_sget(st0, s, key))))
+        return out
+
+    def loops():
+        def inv(st, ctx):
+            i = ctx["i"]; e = ctx["entry"]; ev = st.env["self"]
+            a = {"self": ev, "settings": st.env["settings"]}
+            n2m = e.read(e.read(ev, "simulator"), "name2market")
+            v, lst, n, el = names(e, a); j = z3.Int("j_rsl"); k = z3.Const("k_rsl", z3.StringSort())
+            tm0, tm1 = e.read(ev, "target_markets"), st.read(ev, "target_markets")
+            return [("target map = previous + the first i configured names",
+                     z3.And(tm1.term == tm0.term,
+                            z3.ForAll([k], z3.Select(st.dict_dom(tm1), k) == z3.Or(z3.Select(e.dict_dom(tm0), k), z3.Exists([j], z3.And(0 <= j, j < i, dyn_str(el(j)) == k)))),
+                            z3.ForAll([j], z3.Implies(z3.And(0 <= j, j < i), z3.Select(st.dict_val(tm1), dyn_str(el(j))) == z3.Select(e.dict_val(n2m), dyn_str(el(j))))))),
+                    ("the first i names are strings naming registered markets", z3.ForAll([j], z3.Implies(z3.And(0 <= j, j < i), z3.And(dyn_is_str(el(j)), z3.Select(e.dict_dom(n2m), dyn_str(el(j))))))),
+                    ("the configuration and the registry are not written", z3.And(st.dict_dom(n2m) == e.dict_dom(n2m), st.dict_val(n2m) == e.dict_val(n2m), st.length(lst, ("dyn",)) == n, st.elems(lst, ("dyn",)) == e.elems(lst, ("dyn",))))]
+        return {0: LoopSpec(inv, modifies=lambda st, ctx: [("dd:String_Ref", [st.read(st.env["self"], "target_markets").term]), ("dv:String_Ref", [st.read(st.env["self"], "target_markets").term])],
+                            header="settings['targetMarkets']", name="configured-targets")}
+    fields = ["trigger_change_rate", "is_enabled"] + [f for _k, f in extra_int]
+    spec = FSpec(qual, pre=pre, post=post, raises={"ValueError": invalid}, props=(prop,), param_types={"settings": ("dict", ("str",), ("dyn",))},
+                 modifies=lambda st, a: [("f:" + field_owner(cls, f) + "." + f, [a["self"].term]) for f in fields] +
+                                        [("dd:String_Ref", [st.read(a["self"], "target_markets").term]), ("dv:String_Ref", [st.read(a["self"], "target_markets").term])])
+
+    def build():
+        obl, info = spec.verify(loops=loops())
+        return {"obligations": obl, "info": [info]}
+    build.__doc__ = qual + ": the rule's targets are exactly the configured market names; rate and lengths as configured"
+    task(qual, props=[prop], functions=[qual], replay="events")(build)
+    return spec
+
+
+PLR_SETUP = rule_setup_spec("PriceLimitRule.setup", [], "C15")
+THR_SETUP = rule_setup_spec("TradingHaltRule.setup", [("haltingTimeLength", "halting_time_length")], "C16")
